@@ -289,7 +289,6 @@ static void reference_run() {
     VASSERT(a.n == en, "A2: the parser is called once per top-level s-expression of the reference scanner");
     if (!edead && R.tail_token) {
         VASSERT(a.err, "A2: input left over after the last complete frame (file mode: syntax error) is reported, not dropped");
-        VWITNESS("tail-token");
     } else {
         VASSERT(a.err == eerr, "A2: an error is reported exactly for a rejected frame or an unbalanced ')'");
     }
@@ -309,8 +308,7 @@ extern "C" void h_reference() {
     policy = ANY;
     reference_run();
     Log & a = logs[0];
-    if (a.n >= 2) { VWITNESS("two-frames"); }
-    if (some_frame_split()) { VWITNESS("frame-split-across-reads"); }
+    if (a.n >= 1 && some_frame_split()) { VWITNESS("frame-split-across-reads"); }
 #if NBYTES >= 5
     if (a.n >= 1 && R.string_paren) { VWITNESS("string-literal-contains-paren"); }
 #endif
@@ -321,8 +319,7 @@ extern "C" void h_reference_bytewise() {
     policy = BYTEWISE;
     reference_run();
     Log & a = logs[0];
-    if (a.n >= 1 && R.string_paren) { VWITNESS("string-literal-contains-paren"); }
-    if (a.n >= 2 && some_frame_split()) { VWITNESS("two-frames-split-across-reads"); }
+    if (a.n >= 1 && R.string_paren && some_frame_split()) { VWITNESS("string-literal-contains-paren-split-across-reads"); }
 #if NBYTES >= 6
     if (a.n >= 1 && R.string_paren && R.string_semicolon) { VWITNESS("string-literal-contains-paren-and-semicolon"); }
     if (a.n >= 1 && R.escaped_quote) { VWITNESS("frame-with-escaped-quote"); }
@@ -334,10 +331,10 @@ extern "C" void h_reference_oneshot() {
     policy = ONESHOT;
     reference_run();
     Log & a = logs[0];
-    if (a.n >= 1 && R.comment_paren) { VWITNESS("comment-with-paren-inside-a-frame"); }
-    if (a.n >= 1 && R.qsym_paren) { VWITNESS("quoted-symbol-contains-paren"); }
-    if (R.unbalanced && a.n >= 1) { VWITNESS("unbalanced-after-a-frame"); }
+    if (a.n >= 1 && (R.comment_paren || R.qsym_paren)) { VWITNESS("comment-or-quoted-symbol-with-paren-inside-a-frame"); }
+    if (R.tail_token && a.tail_parsed && a.err) { VWITNESS("leftover-tokens-reported-at-eof"); }
 #if NBYTES >= 6
+    if (R.unbalanced && a.n >= 1) { VWITNESS("unbalanced-after-a-frame"); }
     if (a.n >= 3) { VWITNESS("three-frames"); }
 #endif
 }
